@@ -20,8 +20,11 @@ ALL_ROWS_OPS = {'reset', 'alignment_display'}
 def path_op(ctx, job, box):
     cols, lines = job.params['geom']
     label, op, mk = job.params['opspec']
-    run = GridRun(ctx, box, cols, lines, cursor='pick', tabstops=1, dirty='none',
-                  savepoints=job.params.get('savepoints', 0), sp_charsets='fixed')
+    opts = {'cursor': 'pick'}
+    if job.params.get('remote'):
+        opts = dict(remote_opts(cols, lines), titles='none', extra_mode=False)
+    run = GridRun(ctx, box, cols, lines, tabstops=1, dirty='none',
+                  savepoints=job.params.get('savepoints', 0), sp_charsets='fixed', **opts)
     L = run.L
     args = mk(ctx)
     run.call(op, *args)
@@ -123,6 +126,11 @@ def jobs(tier):
             if spec[1] == 'display':
                 continue
             js.append(Job('%s/%dx%d' % (spec[0], g[0], g[1]), path_op, opspec=spec, geom=g, prop=PROP))
+    for g in remote_geoms(tier, big=False):
+        for spec in sweep.remote_ops(g[0], g[1]):
+            if spec[1] == 'resize':
+                continue
+            js.append(Job('remote/%s/%dx%d' % (spec[0], g[0], g[1]), path_op, opspec=spec, geom=g, remote=True, prop=PROP))
     for g in gs[:2]:
         for spec in sweep.ops(tier, g[0], g[1]):
             if spec[1] in ('restore_cursor', 'resize'):
@@ -136,5 +144,5 @@ META = {
     'bounds': 'geometries quick {2x1,2x2}, thorough {1x1,2x1,2x2,3x2,2x3}; dirty set empty in the pre-state, everything '
               'else symbolic as in C09; one operation per path (a longer history between two clears is the union of '
               'its steps, each step is covered from every state)',
-    'outside': 'larger geometries; through-the-parser spelling is covered by C03 (the dispatcher calls these methods)',
+    'outside': 'larger geometries other than the sparsely written remote screens (quick 9x6; thorough + 17x9) on which the geometry-dependent operations are repeated; through-the-parser spelling is covered by C03 (the dispatcher calls these methods)',
 }
